@@ -592,38 +592,66 @@ func c04Extra(c *Ctx) {
 	if nb < 2 {
 		c.Fail("NORMALISE-SAME-VAR", "count", token.NoPos, "only %d normalisation statements found", nb)
 	}
-	// (c)
-	for _, name := range []string{"handleBreakingFieldWireCompatibleType", "handleBreakingFieldWireJSONCompatibleType"} {
-		fr := p.Func(pkgCheckHandle, name)
-		if fr == nil {
-			c.Fail("SIBLING-GUARDS", name, token.NoPos, "not found")
+	// (c) the two handlers are found through the rule registry, the enum comparison through where it happens (a call
+	// to a package function inside the `case …EnumKind` arm), not by function names
+	tbl := extractCheckTables(p)
+	for _, id := range []string{"FIELD_WIRE_COMPATIBLE_TYPE", "FIELD_WIRE_JSON_COMPATIBLE_TYPE"} {
+		var fr *FuncRef
+		for _, b := range tbl.ByID[id] {
+			if hb := tbl.Handlers[b.HandlerVar]; hb != nil && hb.Func != nil {
+				fr = p.DeclOf(hb.Func)
+			}
+		}
+		if fr == nil || fr.Decl.Body == nil {
+			c.Fail("SIBLING-GUARDS", id, token.NoPos, "handler of %s not found through the registry", id)
 			continue
 		}
 		guarded, calls := true, 0
 		ast.Inspect(fr.Decl.Body, func(x ast.Node) bool {
-			call, ok := x.(*ast.CallExpr)
+			cc, ok := x.(*ast.CaseClause)
 			if !ok {
 				return true
 			}
-			fn := Callee(info, call)
-			if fn == nil || !strings.HasPrefix(fn.Name(), "checkEnumWire") {
-				return true
-			}
-			calls++
-			g := false
-			for cur := p.Parent(call); cur != nil && cur != fr.Decl; cur = p.Parent(cur) {
-				if ifs, ok := cur.(*ast.IfStmt); ok {
-					if be, ok := ifs.Cond.(*ast.BinaryExpr); ok && be.Op == token.NEQ && strings.HasSuffix(exprString(be.X), "TypeName()") && strings.HasSuffix(exprString(be.Y), "TypeName()") {
-						g = true
-					}
+			isEnum := false
+			for _, e := range cc.List {
+				if sel, ok := ast.Unparen(e).(*ast.SelectorExpr); ok && (sel.Sel.Name == "EnumKind" || sel.Sel.Name == "FieldDescriptorProto_TYPE_ENUM") {
+					isEnum = true
 				}
 			}
-			if !g {
-				guarded = false
+			if !isEnum {
+				return true
+			}
+			for _, st := range cc.Body {
+				ast.Inspect(st, func(y ast.Node) bool {
+					call, ok := y.(*ast.CallExpr)
+					if !ok {
+						return true
+					}
+					fn := Callee(info, call)
+					if fn == nil || fn.Pkg() != pk.Types {
+						return true
+					}
+					if sig, ok := fn.Type().(*types.Signature); !ok || sig.Recv() != nil || !lastResultIsError(sig) {
+						return true
+					}
+					calls++
+					g := false
+					for cur := p.Parent(call); cur != nil && cur != ast.Node(cc); cur = p.Parent(cur) {
+						if ifs, ok := cur.(*ast.IfStmt); ok && containsNode(ifs.Body, call) {
+							if be, ok := ast.Unparen(ifs.Cond).(*ast.BinaryExpr); ok && be.Op == token.NEQ && strings.HasSuffix(exprString(be.X), "TypeName()") && strings.HasSuffix(exprString(be.Y), "TypeName()") {
+								g = true
+							}
+						}
+					}
+					if !g {
+						guarded = false
+					}
+					return true
+				})
 			}
 			return true
 		})
-		c.Ob("SIBLING-GUARDS", name, fr.Decl.Pos(), guarded && calls > 0, true, "%d enum compatibility check(s), each under `previousField.TypeName() != field.TypeName()` like its sibling handler (an unchanged enum type is never re-examined): %v", calls, guarded)
+		c.Ob("SIBLING-GUARDS", id, fr.Decl.Pos(), guarded && calls > 0, true, "%d enum compatibility check(s) in the enum arm, each under `previousField.TypeName() != field.TypeName()` like its sibling handler (an unchanged enum type is never re-examined): %v", calls, guarded)
 	}
 }
 
